@@ -66,6 +66,39 @@ theorem nextPow2_pos (n : Nat) : 0 < nextPow2 n := by
   rw [hk]; exact Nat.two_pow_pos k
 
 
+set_option linter.unusedSimpArgs false
+
+/-! the generated guards in closed form; the proofs only use what the
+    conditions compute, not how the source spells them -/
+
+theorem get_oob_eq (l : RawList) (i : Nat) :
+    Gen.ListGuards.get_oob l.view i = decide (i ≥ l.len) := by
+  unfold Gen.ListGuards.get_oob RawList.view
+  rw [Bool.eq_iff_iff]
+  try simp only [Bool.or_eq_true, Bool.and_eq_true, Bool.not_eq_true', decide_eq_true_eq, decide_eq_false_iff_not]
+  all_goals omega
+
+theorem swap_noop_eq (l : RawList) (i j : Nat) :
+    Gen.ListGuards.swap_noop l.view i j = decide (i ≥ l.len ∨ j ≥ l.len ∨ i = j) := by
+  unfold Gen.ListGuards.swap_noop RawList.view
+  rw [Bool.eq_iff_iff]
+  try simp only [Bool.or_eq_true, Bool.and_eq_true, Bool.not_eq_true', decide_eq_true_eq, decide_eq_false_iff_not]
+  all_goals omega
+
+theorem eq_len_differs_eq (a b : RawList) :
+    Gen.ListGuards.eq_len_differs a.view b.view = decide (a.len ≠ b.len) := by
+  unfold Gen.ListGuards.eq_len_differs RawList.view
+  rw [Bool.eq_iff_iff]
+  try simp only [Bool.or_eq_true, Bool.and_eq_true, Bool.not_eq_true', decide_eq_true_eq, decide_eq_false_iff_not]
+  all_goals omega
+
+theorem reserve_grows_eq (l : RawList) (nc : Nat) :
+    Gen.ListGuards.reserve_grows l.view nc = decide (nc > l.cap) := by
+  unfold Gen.ListGuards.reserve_grows RawList.view
+  rw [Bool.eq_iff_iff]
+  try simp only [Bool.or_eq_true, Bool.and_eq_true, Bool.not_eq_true', decide_eq_true_eq, decide_eq_false_iff_not]
+  all_goals omega
+
 def IsPow2 (n : Nat) : Prop := ∃ k, n = 2 ^ k
 
 /-- the representation invariant of one `RawList` with element size `sz` -/
@@ -131,7 +164,7 @@ theorem reserve_ok {sz : Nat} {l l' : RawList} {added : Nat}
       cases hc : computeCapacity sz (l.len + added) with
       | error f => simp [hc] at h
       | ok nc =>
-        simp only [hc] at h
+        simp only [hc, reserve_grows_eq, decide_eq_true_eq] at h
         have ⟨h1, h2, h3, _⟩ := computeCapacity_ok hc
         injection h with h
         by_cases hg : nc > l.cap
